@@ -418,6 +418,14 @@ class LV:
         self.world, self.tag = world, tag
         self.config = world['cfg']
 
+    @property
+    def size(self):
+        # number of stored elements = dimension of the space the map acts on (symbolic, >= 1)
+        w = self.world
+        if 'vsize' not in w:
+            w['vsize'] = w['V'].int('vector_size', lo=1)
+        return w['vsize']
+
     def norm(self):
         self.world['last_norm_of'] = self.tag
         if not self.world.get('nonzero', True):
@@ -438,6 +446,7 @@ class LV:
     def expand_krylov_space(self, f, tol, ncv, hermitian, V, H=None, **kw):
         w = self.world
         w['expand_args'] = dict(tol=tol, ncv=ncv, hermitian=hermitian, lenV=len(V), first=V[0].tag)
+        sym.ctx().assume(ncv >= w['lenV'] - 1)       # scenario consistency: the basis returned fits the space that was asked for
         out = list(V) + [LV(w, ('krylov', j)) for j in range(len(V), w['lenV'])]
         Hd = LH(w)
         for j in range(w['lenV']):
@@ -555,7 +564,7 @@ class LCfg:
 
 
 def lworld(V, lenV, happy):
-    w = {'lenV': lenV, 'happy': happy}
+    w = {'lenV': lenV, 'happy': happy, 'V': V}
     w['cfg'] = LCfg(w)
     _CHECK[0] = V
     return w
@@ -578,6 +587,8 @@ def h_eigs(V, lenV, happy, hermitian, k, which):
     val, Y = out.value
     ea = w['expand_args']
     V.check('krylov-space-started-from-the-normalised-start-vector', ea['lenV'] == 1 and ea['first'] == ('scaled', 'v0') and ea['hermitian'] == hermitian)
+    req = lenV - 1 if lenV > 1 else 1
+    V.check('krylov-space-never-larger-than-the-vector-nor-than-requested', And(ea['ncv'] <= w['vsize'], ea['ncv'] <= req, Or(ea['ncv'] == req, ea['ncv'] == w['vsize'])))
     V.check('projected-matrix-has-the-dimension-of-the-kept-basis', w['T_dim'] == m)
     V.check('hermitian-flag-selects-the-dense-solver', w['solver'] == ('eigh' if hermitian else 'eig'))
     V.check('requested-part-of-the-spectrum', w['which'] == which)
@@ -634,6 +645,11 @@ def h_lin_solver(V, lenQ, happy, hermitian):
     V.check('residual-evaluated-on-the-returned-vector', w.get('last_norm_of') == ('sub', ('f', vf.tag), 'b'))
 
 
+import contracts.krylov_bounded as KB
+from contracts.krylov_bounded import h_expmv_numeric, h_eigs_numeric, h_lin_solver_numeric
+BOUNDED_HARNESSES = {'h_expmv_numeric', 'h_eigs_numeric', 'h_lin_solver_numeric'}
+
+
 def units(tier):
     U = []
     for normalize in (False, True):
@@ -654,4 +670,5 @@ def units(tier):
                         U.append(('h_eigs', f"hermitian={herm},happy={happy},lenV={lenV},k={k},which={which}", dict(lenV=lenV, happy=happy, hermitian=herm, k=k, which=which)))
                 U.append(('h_lin_solver', f"hermitian={herm},happy={happy},lenQ={lenV}", dict(lenQ=lenV, happy=happy, hermitian=herm)))
     U.append(('h_eigs_zero', 'x', {}))
+    U = U + KB.units(tier)
     return U
